@@ -1037,7 +1037,11 @@ def run(ctx) -> None:
     ctx.guard(e3)
     ctx.guard(e4)
     from .c02 import r02_8
-    ctx.guard_as("E7", r02_8)  # an embedded epk only enters through the recipient key class's validating import (no key-class confusion)
+    ctx.guard_as("E7", r02_8)
+    from .c05 import r05_3
+    from .c02 import r02_7
+    ctx.guard_as("E8", r05_3)  # the algorithm gates test membership in the very table they index afterwards (no KeyError for a name of another location)
+    ctx.guard_as("E8", r02_7)  # the CEK set is non-empty before it is popped (an empty recipients list is refused)  # an embedded epk only enters through the recipient key class's validating import (no key-class confusion)
     ctx.extra["consume_reachable_functions"] = len(consume_scope(ctx.eng))
     ctx.assume("external throws table jv/spec/throws.py (probed with cryptography 50.0.1, CPython 3.12.1, pycryptodome 3.23)")
     ctx.assume("well-formed keys and registries (property statement); PEM/DER loaders are only reached with the caller's own key material")
